@@ -334,13 +334,317 @@ Lemma decode_code_b2b c code ks d : decode_code c code ks = OK d ->
     bytes_to_blocks key_eqb c (co_code code) lm (co_names code) (co_varnames code)
       (co_freevars code) (co_cellvars code) ks (cd_type d) a
     = OK (cd_blocks d, cd_addargs d, lm') /\
-    doc_consistent (cd_type d) ks.
+    doc_consistent (cd_type d) ks /\
+    match cd_type d with Some f => fn_args f = a | None => args_len a = 0 end.
 Proof.
   unfold decode_code. cbv zeta. intros H.
   repeat dmatch H. inversion H; subst d. cbn [cd_blocks cd_type cd_addargs].
   match goal with B : bytes_to_blocks _ _ _ _ _ _ _ _ _ _ _ = OK _ |- _ => rename B into B' end.
   do 3 eexists. split; [exact B'|].
   match goal with R : match filter _ FN_FLAGS with _ => _ end = OK (?o, _) |- _ =>
-    clear - R; repeat dmatch R; inversion R; subst; cbn [doc_consistent fn_doc]; try exact I; reflexivity
+    clear - R; repeat dmatch R; inversion R; subst; cbn [doc_consistent fn_doc fn_args];
+    (split; [try exact I; reflexivity|try reflexivity; lia])
   end.
 Qed.
+
+(* ------------------------------------------------------------------ *)
+(** * 4. blocks_to_constants rebuilds the constants table *)
+
+Notation kr := ConstsProofs.key_eqb_refl.
+Notation ks_ := ConstsProofs.key_eqb_sym_eq.
+Notation kt := ConstsProofs.key_eqb_trans.
+
+Lemma add_additional_app {C} (keq : C -> C -> bool) is_str none_c (l1 l2 : list (arg_ C)) bt fv : forall st,
+  add_additional keq is_str none_c (l1 ++ l2) bt fv st =
+  match add_additional keq is_str none_c l1 bt fv st with
+  | OK st1 => add_additional keq is_str none_c l2 bt fv st1
+  | Err e => Err e
+  end.
+Proof.
+  induction l1 as [|x l1 IH]; intros st; cbn [app add_additional]; [reflexivity|].
+  destruct (from_arg keq is_str none_c x bt fv st) as [[v st1]|]; [apply IH|reflexivity].
+Qed.
+
+Lemma found_all_in_range {T} (keq : T -> T -> bool) tbl : forall idxs ts uses ts',
+  ta_args ts = tbl -> Forall (fun i => 0 <= i) idxs ->
+  TR.found_all keq ts idxs = OK (uses, ts') ->
+  Forall (fun i => 0 <= i < zlen tbl) idxs.
+Proof.
+  induction idxs as [|i r IH]; intros ts uses ts' Ha HF H; [constructor|].
+  cbn [TR.found_all] in H. apply Forall_cons_iff in HF as [Hi HF].
+  destruct (found_index keq ts i) as [[[x ov] t]|] eqn:F; [|discriminate].
+  destruct (TR.found_all keq t r) as [[l t2]|] eqn:Er; [|discriminate].
+  apply DV.found_index_spec in F as [F1 F2]. rewrite Ha in F1, F2.
+  constructor.
+  - apply EV.py_index_Some_range in F1; [lia|exact Hi].
+  - eapply IH; eassumption.
+Qed.
+
+Lemma uses_of_nonneg cls keep ps :
+  Forall (fun p => 0 <= p_arg p) ps -> Forall (fun i => 0 <= i) (uses_of cls keep ps).
+Proof.
+  intros H. apply Forall_forall. intros i Hi. unfold uses_of in Hi.
+  apply in_map_iff in Hi as (p & <- & Hp). apply filter_In in Hp as [Hp _].
+  rewrite Forall_forall in H. now apply H.
+Qed.
+
+Lemma parse_nonneg c b ps : code_ok c b = true -> parse_bytes c b 0 0 0 = OK ps ->
+  Forall (fun p => 0 <= p_arg p) ps.
+Proof.
+  intros U P. destruct (EV.parse_tiled c b ps U P) as [Hpi _].
+  eapply Forall_impl; [|exact Hpi]. intros p Hp. apply Hp.
+Qed.
+
+Lemma b2b_parse {C} (keq : C -> C -> bool) c b lm names varnames freevars cellvars ks bt a r :
+  bytes_to_blocks keq c b lm names varnames freevars cellvars ks bt a = OK r ->
+  exists ps, parse_bytes c b 0 0 0 = OK ps.
+Proof.
+  unfold bytes_to_blocks. cbv zeta. intros H.
+  match type of H with
+  | match ?X with _ => _ end = _ => destruct X as [st1|e]; [|discriminate]
+  end.
+  destruct (parse_bytes c b 0 0 0) as [ps|]; [eauto|discriminate].
+Qed.
+
+Lemma doc_rule_off bt ks : doc_consistent bt ks ->
+  docstring_is_none bt = true -> match ks with KInner (IStr _) :: _ => False | _ => True end.
+Proof.
+  unfold doc_consistent, docstring_is_none. destruct bt as [f|]; [|discriminate].
+  intros Hd Hn. destruct (fn_doc f); [discriminate|].
+  destruct ks as [|[[]|] r]; try exact I. discriminate.
+Qed.
+
+Notation ADDK := (add_additional key_eqb is_str_const (KInner INone)).
+
+(* operands then additional args, from any related pair of states *)
+Lemma consts_rest ks bt fv ts fs idxs uses st adds en ev ec :
+  doc_consistent bt ks ->
+  TR.DI key_eqb ks ts -> TR.EI key_eqb ks ts fs ->
+  Forall (fun i => 0 <= i) idxs ->
+  TR.found_all key_eqb ts idxs = OK (uses, st) ->
+  additional_args key_eqb st = OK adds ->
+  exists fs', ADDK (arg_of_additional AConst uses ++ arg_of_additional AConst adds) bt fv
+                   (mkEnc en ev ec fs) = OK (mkEnc en ev ec fs') /\
+              fa_to_tuple fs' = OK ks.
+Proof.
+  intros Hdc HD HE Hnn Hf Hadd.
+  pose proof (doc_rule_off _ _ Hdc) as Hdoc.
+  assert (HF := found_all_in_range key_eqb ks _ _ _ _ (TR.D_args _ _ _ HD) Hnn Hf).
+  destruct (EV.addl_consts fv ks bt Hdoc _ _ _ _ _ en ev ec HD HE HF Hf) as (fs1 & A1 & HD1 & HE1).
+  destruct (EV.adds_found key_eqb kr ks_ kt _ _ _ HD1 Hadd) as (idxs2 & ts' & Hf2 & HF2 & Hall).
+  destruct (EV.addl_consts fv ks bt Hdoc _ _ _ _ _ en ev ec HD1 HE1 HF2 Hf2) as (fs2 & A2 & HD2 & HE2).
+  exists fs2. rewrite add_additional_app, A1, A2. split; [reflexivity|].
+  exact (TR.to_tuple_full key_eqb kr ks_ kt _ _ _ HD2 HE2 Hall).
+Qed.
+
+Theorem blocks_to_constants_decoded c b lm names varnames freevars cellvars ks bt a blocks addl lm' :
+  cfg_ops_wf c = true -> code_ok c b = true -> doc_consistent bt ks ->
+  bytes_to_blocks key_eqb c b lm names varnames freevars cellvars ks bt a = OK (blocks, addl, lm') ->
+  blocks_to_constants key_eqb is_str_const (KInner INone) (fun s => KInner (IStr s)) blocks addl bt
+  = OK ks.
+Proof.
+  intros W U Hdc H.
+  destruct (b2b_parse _ _ _ _ _ _ _ _ _ _ _ _ H) as [ps Ep].
+  destruct (b2b_proj key_eqb c W _ _ _ _ _ _ _ _ _ _ _ _ _ H Ep) as (_ & _ & _ & (st & Hf & Hadd) & _).
+  pose proof (uses_of_nonneg (cfg_hasconst c) (fun _ => true) ps (parse_nonneg c b ps U Ep)) as Hnn.
+  unfold blocks_to_constants. cbv zeta.
+  fold (only_consts (map i_arg (concat blocks))). fold (only_consts addl).
+  rewrite !only_consts_spec.
+  unfold doc_use, doc_entry in Hf.
+  destruct (has_docstring bt) eqn:Hd.
+  - (* the docstring is found first, at index 0 *)
+    unfold has_docstring in Hd. destruct bt as [f|]; [|discriminate].
+    destruct (fn_doc f) as [s|] eqn:Ef; [|discriminate].
+    unfold doc_consistent in Hdc. rewrite Ef in Hdc.
+    destruct ks as [|[[]|] r]; try discriminate Hdc. inversion Hdc; subst s0. clear Hdc.
+    cbn [app TR.found_all] in Hf.
+    destruct (found_index key_eqb (toargs_init (KInner (IStr s) :: r) 0) 0) as [[[k0 ov0] t]|] eqn:F;
+      [|discriminate].
+    destruct (TR.found_all key_eqb t _) as [[l st']|] eqn:Er; [|discriminate].
+    inversion Hf; subst k0 ov0 l st'. clear Hf.
+    assert (Hr0 : 0 <= 0 < zlen (KInner (IStr s) :: r)) by (unfold zlen; cbn [length]; lia).
+    destruct (TR.replay_step key_eqb kr ks_ kt _ _ _ _ _ _ _ (EV.DI0_key _) (TR.EI_empty key_eqb _) Hr0 F)
+      as (fs1 & Hadd1 & HD1 & HE1).
+    cbn [fa_add key_lookup fa_index fromargs_empty fa_items] in Hadd1.
+    change (zlen (@nil (Z * const))) with 0 in Hadd1.
+    destruct (fa_setitem key_eqb fromargs_empty 0 (KInner (IStr s))) as [fs1'|] eqn:Es; [|discriminate].
+    inversion Hadd1; subst fs1'. clear Hadd1.
+    assert (Hdc' : doc_consistent (Some f) (KInner (IStr s) :: r)) by (unfold doc_consistent; exact Ef).
+    destruct (consts_rest _ _ [] _ _ _ _ _ _ fromargs_empty fromargs_empty fromargs_empty
+                Hdc' HD1 HE1 Hnn Er Hadd) as (fs' & A & Tk).
+    rewrite A. exact Tk.
+  - cbn [app] in Hf.
+    assert (Hcs : match bt with
+                  | Some f => match fn_doc f with
+                              | Some d => fa_setitem key_eqb fromargs_empty 0 (KInner (IStr d))
+                              | None => OK fromargs_empty
+                              end
+                  | None => OK fromargs_empty
+                  end = OK fromargs_empty).
+    { unfold has_docstring in Hd. destruct bt as [f|]; [|reflexivity].
+      destruct (fn_doc f); [discriminate|reflexivity]. }
+    rewrite Hcs.
+    destruct (consts_rest _ _ [] _ _ _ _ _ _ fromargs_empty fromargs_empty fromargs_empty
+                Hdc (EV.DI0_key ks) (TR.EI_empty key_eqb ks) Hnn Hf Hadd) as (fs' & A & Tk).
+    rewrite A. exact Tk.
+Qed.
+
+Theorem C14_iter : S_C14_iter.
+Proof.
+  unfold S_C14_iter. intros c code ks d Hwf Hd.
+  destruct (decode_code_b2b _ _ _ _ Hd) as (lm & a & lm' & Hb & Hdc & _).
+  unfold rt_wf in Hwf. EV.split_andb.
+  unfold iter_code_data.
+  rewrite (blocks_to_constants_decoded _ _ _ _ _ _ _ _ _ _ _ _ _ ltac:(eassumption) ltac:(eassumption) Hdc Hb).
+  reflexivity.
+Qed.
+
+(* ------------------------------------------------------------------ *)
+(** * 5. all_code_data walks the nested code objects *)
+
+Section PyInd.
+  Context (P : pyconst -> Prop).
+  Context (HInner : forall i, P (PInner i)).
+  Context (HCode : forall code, Forall P (co_consts code) -> P (PCode code)).
+
+  Fixpoint pyconst_ind' (k : pyconst) : P k :=
+    match k as k0 return P k0 with
+    | PInner i => HInner i
+    | PCode code =>
+        HCode code
+          (match code as c0 return Forall P (co_consts c0) with
+           | mkCode a1 a2 a3 a4 a5 a6 a7 consts a9 a10 a11 a12 a13 a14 a15 a16 =>
+               (fix go (l : list pyconst) : Forall P l :=
+                  match l with
+                  | [] => Forall_nil P
+                  | x :: xs => Forall_cons x (pyconst_ind' x) (go xs)
+                  end) consts
+           end)
+    end.
+End PyInd.
+
+Lemma mapM_cons {A B} (f : A -> res B) x xs :
+  mapM f (x :: xs) = match f x with
+                     | Err e => Err e
+                     | OK y => match mapM f xs with Err e => Err e | OK ys => OK (y :: ys) end
+                     end.
+Proof. reflexivity. Qed.
+
+Lemma walk_codes_code code :
+  walk_codes (PCode code) = code :: flat_map walk_codes (co_consts code).
+Proof.
+  (* the inner fix of walk_codes is flat_map itself *)
+  reflexivity.
+Qed.
+
+Lemma depth_children code f : (depth_const (PCode code) <= S f)%nat ->
+  Forall (fun x => (depth_const x <= f)%nat) (co_consts code).
+Proof.
+  change (depth_const (PCode code)) with
+    (S ((fix go (l : list pyconst) : nat :=
+           match l with [] => 0%nat | x :: r => Nat.max (depth_const x) (go r) end) (co_consts code))).
+  intros H. apply le_S_n in H. revert H.
+  induction (co_consts code) as [|x l IH]; intros H; constructor.
+  - lia.
+  - apply IH. lia.
+Qed.
+
+Lemma rt_wf_deep_code c code : rt_wf_deep c (PCode code) = true ->
+  exists ks, mapM (to_const c) (co_consts code) = OK ks /\ rt_wf c code ks = true /\
+             Forall (fun x => rt_wf_deep c x = true) (co_consts code).
+Proof.
+  change (rt_wf_deep c (PCode code)) with
+    (match mapM (to_const c) (co_consts code) with
+     | OK ks =>
+         rt_wf c code ks
+         && (fix all (l : list pyconst) : bool :=
+               match l with [] => true | x :: r => rt_wf_deep c x && all r end) (co_consts code)
+     | Err _ => false
+     end).
+  destruct (mapM (to_const c) (co_consts code)) as [ks|]; [|discriminate].
+  intros H. apply andb_true_iff in H as [H1 H2]. exists ks. split; [reflexivity|]. split; [exact H1|].
+  revert H2. induction (co_consts code) as [|x l IH]; intros H2; constructor.
+  - apply andb_true_iff in H2. tauto.
+  - apply IH. apply andb_true_iff in H2. tauto.
+Qed.
+
+Lemma to_const_code c code :
+  to_const c (PCode code) =
+  match to_code_data c code with OK d => OK (KCode d) | Err e => Err e end.
+Proof.
+  change (to_const c (PCode code)) with
+    (match mapM (to_const c) (co_consts code) with
+     | Err e => Err e
+     | OK ks => match decode_code c code ks with OK d => OK (KCode d) | Err e => Err e end
+     end).
+  unfold to_code_data. destruct (mapM (to_const c) (co_consts code)); reflexivity.
+Qed.
+
+Definition all_ok (c : cfg) (k : pyconst) : Prop :=
+  match k with
+  | PInner _ => True
+  | PCode code =>
+      forall d fuel,
+        rt_wf_deep c (PCode code) = true -> to_code_data c code = OK d ->
+        (depth_const (PCode code) <= fuel)%nat ->
+        exists ds, all_code_data fuel d = OK ds /\
+                   Forall2 (fun x k => to_code_data c k = OK x) ds (walk_codes (PCode code))
+  end.
+
+Lemma all_children c f : forall (l : list pyconst) ks,
+  Forall (all_ok c) l -> mapM (to_const c) l = OK ks ->
+  Forall (fun x => rt_wf_deep c x = true) l -> Forall (fun x => (depth_const x <= f)%nat) l ->
+  exists ls, mapM (all_code_data f) (codes_of ks) = OK ls /\
+             Forall2 (fun x k => to_code_data c k = OK x) (concat ls) (flat_map walk_codes l).
+Proof.
+  induction l as [|x r IH]; intros ks HP Hm Hw Hd.
+  - cbn in Hm. inversion Hm; subst ks. exists []. split; [reflexivity|constructor].
+  - rewrite mapM_cons in Hm.
+    apply Forall_cons_iff in HP as [Px HP]. apply Forall_cons_iff in Hw as [Wx Hw].
+    apply Forall_cons_iff in Hd as [Dx Hd].
+    destruct x as [i|code].
+    + cbn [to_const] in Hm. destruct (mapM (to_const c) r) as [ys|] eqn:Er; [|discriminate].
+      inversion Hm; subst ks. destruct (IH ys HP eq_refl Hw Hd) as (ls & Hls & HF).
+      exists ls. split; [exact Hls|]. exact HF.
+    + rewrite to_const_code in Hm.
+      destruct (to_code_data c code) as [d|] eqn:Et; [|discriminate].
+      destruct (mapM (to_const c) r) as [ys|] eqn:Er; [|discriminate].
+      inversion Hm; subst ks. destruct (IH ys HP eq_refl Hw Hd) as (ls & Hls & HF).
+      destruct (Px d f Wx Et Dx) as (ds & Hds & HFd).
+      exists (ds :: ls). split.
+      * unfold codes_of. cbn [flat_map app]. fold (codes_of ys). rewrite mapM_cons, Hds, Hls. reflexivity.
+      * cbn [concat flat_map]. apply Forall2_app; assumption.
+Qed.
+
+Lemma all_ok_all c : forall k, all_ok c k.
+Proof.
+  induction k as [i|code IH] using pyconst_ind'; [exact I|].
+  intros d fuel Hw Ht Hd.
+  destruct (rt_wf_deep_code _ _ Hw) as (ks & Hm & Hwf & Hwc).
+  unfold to_code_data in Ht. rewrite Hm in Ht.
+  destruct fuel as [|f].
+  { exfalso. revert Hd.
+    change (depth_const (PCode code)) with
+      (S ((fix go (l : list pyconst) : nat :=
+             match l with [] => 0%nat | x :: r => Nat.max (depth_const x) (go r) end) (co_consts code))).
+    lia. }
+  pose proof (depth_children _ _ Hd) as Hdc.
+  destruct (all_children c f _ _ IH Hm Hwc Hdc) as (ls & Hls & HF).
+  exists (d :: concat ls). split.
+  - cbn [all_code_data]. rewrite (C14_iter c code ks d Hwf Ht), Hls. reflexivity.
+  - rewrite walk_codes_code. constructor; [|exact HF].
+    unfold to_code_data. rewrite Hm. exact Ht.
+Qed.
+
+Theorem C14_all : S_C14_all.
+Proof.
+  unfold S_C14_all. intros c code d fuel Hw Ht Hd.
+  exact (all_ok_all c (PCode code) d fuel Hw Ht Hd).
+Qed.
+
+Check (C14_iter : S_C14_iter).
+Check (C14_all : S_C14_all).
+Print Assumptions b2b_proj.
+Print Assumptions blocks_to_constants_decoded.
+Print Assumptions C14_iter.
+Print Assumptions C14_all.
